@@ -284,3 +284,19 @@ Fixpoint ascending (l : list N) : Prop :=
   | [] => True
   | a :: t => (forall b, In b t -> a < b) /\ ascending t
   end.
+
+(* ---------------- vocabulary for the composition with the stream splitter (C05_segmentation) ---------------- *)
+(* the messages flagged complete among what parse delivered: (message id, body) *)
+Definition completed_msgs (outs : list pmsg) : list (N * list N) :=
+  map (fun p => (m_id (p_msg p), m_body (p_msg p))) (filter p_complete outs).
+(* the same for the message-level machine *)
+Fixpoint completed_outs (os : list eout) : list (N * list N) :=
+  match os with
+  | [] => []
+  | OComplete i b :: t => (i, b) :: completed_outs t
+  | _ :: t => completed_outs t
+  end.
+(* everything a list of reads, all processed at the instant now, delivers (in order) and the errors returned *)
+Definition feed_all (now : N) (st : pst) (chunks : list (list N)) : list pmsg * list (option N) :=
+  let rs := run_script now st (map SFeed chunks) in
+  (concat (map (fun r => snd (fst r)) rs), map snd rs).
